@@ -2,6 +2,7 @@ package rules
 
 import (
 	"fmt"
+	"go/types"
 	"go/token"
 	"sort"
 	"strings"
@@ -18,6 +19,7 @@ func checkC12(c *an.Ctx) {
 	c.Rule("C12.2", "commands run under the runner context (E5): every Execute of the before/command/after phases receives TaskRunner.ctx; Execute hands it, or a WithTimeout child of it, to the interpreter; ctx and cancelFunc come from one WithCancel pair assigned only in the constructor")
 	c.Rule("C12.3", "scheduler (E3/E4): Scheduler.Cancel stores the flag before cancelling the runner; the flag is loaded on every pass before any launch; a cancelled run still waits for its stages")
 	c.Rule("C12.4", "an interrupted command is fatal (E2): the rows 'not an exit status' of the job-walk table mark the task errored and return the error, with and without allow_failure")
+	c.Rule("C12.6", "one runner, one cancellation state (E4): no whole-value copy of a TaskRunner (or of the object that holds its mutex, flag and WaitGroup) is made anywhere in the module — a copy shares the context but has a mutex, a flag and a WaitGroup of its own, so runs started through it are not waited for by Cancel on the original")
 	c.Rule("C12.5", "how a running command is stopped (library summary, option table): every interp.New in the module is given options from the closed set StdIO / Env / Dir / Params / OpenHandler, and an ExecHandler only if it is interp.DefaultExecHandler with a positive constant grace period — the library default interrupts the command, lets it stop its own children and kills it after the grace period; with a non-positive period the command is killed outright, its children are orphaned holding the output pipes, and the interpreter (and with it Run and Cancel) waits for them")
 	c.Summaries = append(c.Summaries, "mvdan.cc/sh/v3@v3.1.1 interp.DefaultExecHandler(d): on context cancellation sends os.Interrupt, then Kill after d; with d <= 0 sends Kill at once (read in interp/handler.go); interp.New installs DefaultExecHandler(2s)", "os/exec: a Stdin that is not an *os.File is copied to the child by a goroutine, and Cmd.Wait returns only after that goroutine has finished (package documentation of Cmd.Stdin)")
 	c.NotDecided = append(c.NotDecided, "promptness in wall-clock terms", "how the interpreter kills children", "absence of deadlock in general (only this protocol's shape)")
@@ -94,6 +96,41 @@ func checkC12(c *an.Ctx) {
 
 	// C12.5
 	interpOptions(c, "C12.5")
+
+	// C12.6
+	{
+		holders := map[string]bool{"TaskRunner": true}
+		if rs := resolveRunnerState(p); rs != nil && rs.mutex != "" {
+			if i := strings.Index(rs.mutex, "."); i > 0 {
+				holders[rs.mutex[:i]] = true
+			}
+		}
+		n, copies := 0, 0
+		for _, fn := range p.Funcs {
+			if !an.InModule(fn) {
+				continue
+			}
+			an.EachInstr(fn, func(in ssa.Instruction) {
+				u, ok := in.(*ssa.UnOp)
+				if !ok || u.Op != token.MUL {
+					return
+				}
+				n++
+				named, ok := u.Type().(*types.Named)
+				if !ok || named.Obj().Pkg() == nil || !strings.HasSuffix(named.Obj().Pkg().Path(), "pkg/runner") || !holders[named.Obj().Name()] {
+					return
+				}
+				if _, isStruct := named.Underlying().(*types.Struct); !isStruct {
+					return
+				}
+				copies++
+				c.Bad("C12.6", an.Short(fn)+":copy("+named.Obj().Name()+")", u.Pos(), "%s copies a whole %s value: the copy shares the runner's context but has its own mutex, cancelling flag and WaitGroup — a run started through the copy is not registered with the original, so Cancel on the original returns while that run's command is still alive, and the copy never refuses a run", an.Short(fn), named.Obj().Name())
+			})
+		}
+		if copies == 0 {
+			c.OK("C12.6", "runner:value-copies", r.run.Pos(), "no whole-value copy of the runner's state holder is made in the module (%d loads looked at)", n)
+		}
+	}
 }
 
 // interpOptions checks C12.5.
@@ -379,11 +416,44 @@ func runGate(c *an.Ctx, r *runnerRoles, rule string) {
 	checkRunTable(c, rule, map[string]bool{"gate": true})
 	// the function holding the test (Run itself or a helper it calls first)
 	var f *ssa.Function
-	var errCall *ssa.Call
+	var errCall ssa.Instruction
+	ctxField := resolveRunnerState(c.P).ctx
+	// the test: ctx.Err(), a non-blocking poll of ctx.Done(), or a call of a helper that consists of one of them
+	isDirectTest := func(in ssa.Instruction) bool {
+		if call, ok := in.(*ssa.Call); ok && call.Call.IsInvoke() && call.Call.Method.Name() == "Err" && an.FieldProv(call.Call.Value) == ctxField {
+			return true
+		}
+		if sel, ok := in.(*ssa.Select); ok && !sel.Blocking && gateSelect(sel) >= 0 {
+			return true
+		}
+		return false
+	}
+	isTest := func(in ssa.Instruction) bool {
+		if isDirectTest(in) {
+			return true
+		}
+		if call, ok := in.(*ssa.Call); ok {
+			if h := call.Call.StaticCallee(); h != nil && an.InModule(h) && h.Blocks != nil && len(an.BlockingOps(h)) <= 1 {
+				found := false
+				an.EachInstr(h, func(x ssa.Instruction) {
+					if isDirectTest(x) {
+						found = true
+					}
+				})
+				return found
+			}
+		}
+		return false
+	}
 	for _, fn := range r.scope {
+		hasAdd := len(an.CallsIn(fn, fnWgAdd)) > 0
 		an.EachInstr(fn, func(in ssa.Instruction) {
-			if call, ok := in.(*ssa.Call); ok && call.Call.IsInvoke() && call.Call.Method.Name() == "Err" && an.FieldProv(call.Call.Value) == resolveRunnerState(c.P).ctx {
-				f, errCall = fn, call
+			if !isTest(in) {
+				return
+			}
+			// prefer the test in the function that registers the run, and there the first one
+			if f == nil || (hasAdd && (f != fn || an.Dominates(in, errCall))) {
+				f, errCall = fn, in
 			}
 		})
 	}
